@@ -4,7 +4,7 @@ patch, repository tests, then the quick tier of the property's check (plus liste
 writes seeded/<id>/meta.json."""
 import json, os, re, subprocess, sys, time
 VERIF = os.path.dirname(os.path.dirname(os.path.abspath(__file__)))
-CROSS = {"C09-2": ["C09", "C11"], "C10-2": ["C10", "C11"], "C09-1": ["C09", "C10"]}
+CROSS = {"C09-2": ["C09", "C11"], "C10-2": ["C10", "C11"], "C09-1": ["C09", "C10"], "C10-r4-3": ["C10", "C09"]}
 ids = sys.argv[1:] or sorted(os.listdir(os.path.join(VERIF, "seeded")))
 for sid in ids:
     d = os.path.join(VERIF, "seeded", sid)
